@@ -333,6 +333,25 @@ def run_case(sim, seed, i):
                                      "faults": [fault], "mapseed": ms, "seed": seed, "case": desc, "location": "read_fault"})
         if v:
             viols.append(v)
+    # (d) command-line overrides of manifest keys on the valid package (`--config key=value`, applied after the manifest was read
+    # and checked): whatever the override makes of the package, a run that ends in an error must not have written anything
+    tk = [(t, M.TARGET_KEYS[t]) for t in ("cpp", "python", "json", "matlab") if t in desc["targets"]]
+    for j in range(1 if tk else 0):
+        cr = rng.fork("override", j)
+        t, key = cr.choice(tk)
+        ov = cr.choice(["%s.%s=" % (t, key), "%s.%s=" % (t, key), "%s.noSuchOption=1" % t, "namespace="])
+        spec = tw.oneshot_spec(valid_files, desc.get("cwd", "/w/pkg"), args=("generate", "--config", ov), links=desc.get("links") or {})
+        res = sim.run(spec, mapseed=ms)
+        stats["runs"] += 1
+        stats["runs_with_a_config_override"] = stats.get("runs_with_a_config_override", 0) + 1
+        if res.get("status") == "process_died":
+            continue
+        if res.get("exit_code") != 0:
+            stats["config_override_led_to_an_error"] = stats.get("config_override_led_to_an_error", 0) + 1
+        v = judge(res, dict(valid_files), False, {"mode": "override", "files": valid_files, "pre_files": {}, "pre_dirs": [], "outs": outs, "args": ["generate", "--config", ov],
+                                                   "mapseed": ms, "seed": seed, "case": desc, "location": "config_override"})
+        if v:
+            viols.append(v)
     # (c) write faults on the valid package, generated into empty output directories: an error while writing is an error
     # too - the exit status must say so (that nothing was modified cannot be asked of a run that fails half-way through)
     wops = [o for o in mutations_under(good["ops"], outs) if o["op"] in ("write", "mkdirall", "mkdir", "rename", "chmod", "symlink")]   # (not "open": the first open of an output file is the read that decides whether it needs writing, and failing to read it is legitimately absorbed)
@@ -378,7 +397,8 @@ def replay(sim, doc):
     init = dict(doc["files"])
     init.update(doc.get("pre_files", {}))
     case = doc.get("case") or {}
-    res = sim.run(tw.oneshot_spec(init, case.get("cwd", "/w/pkg"), dirs=doc.get("pre_dirs", []), faults=doc.get("faults", []), mtimes=doc.get("mtimes") or {}, links=case.get("links") or {}), mapseed=doc["mapseed"])
+    res = sim.run(tw.oneshot_spec(init, case.get("cwd", "/w/pkg"), dirs=doc.get("pre_dirs", []), faults=doc.get("faults", []), mtimes=doc.get("mtimes") or {}, links=case.get("links") or {},
+                                  **({"args": doc["args"]} if doc.get("args") else {})), mapseed=doc["mapseed"])
     if res.get("status") == "process_died":
         return False, "process died: " + res.get("stderr_tail", "")[-300:]
     failed = res["exit_code"] != 0 or res["status"] != "returned"
@@ -442,7 +462,7 @@ def main():
     budget = check.budget(60, 1500)
     max_cases = 400 if quick else 1000000
     totals = {"runs": 0, "generator_rejected": 0, "invalid_cases": 0, "faults_fired": 0, "fault_absorbed": 0, "fault_reported": 0,
-              "fault_before_first_write": 0, "prepopulated": 0, "process_died": 0, "write_faults_fired": 0}
+              "fault_before_first_write": 0, "prepopulated": 0, "process_died": 0, "write_faults_fired": 0, "runs_with_a_config_override": 0, "config_override_led_to_an_error": 0}
     matrix = {}
     i = 0
     while i < max_cases and check.elapsed() < budget:
@@ -456,7 +476,7 @@ def main():
                 for rec, doc in viols:          # (it failed on the package as generated and wrote all the same)
                     check.report(rec, doc)
                 continue
-            for k in ("faults_fired", "fault_absorbed", "fault_reported", "fault_before_first_write", "write_faults_fired"):
+            for k in ("faults_fired", "fault_absorbed", "fault_reported", "fault_before_first_write", "write_faults_fired", "runs_with_a_config_override", "config_override_led_to_an_error"):
                 totals[k] += stats.get(k, 0)
             totals["process_died"] += stats.get("died", 0)
             totals["prepopulated"] += 1 if d.get("prepopulated") else 0
